@@ -560,8 +560,7 @@ func VerifC15English(ord, neg, fix, ns int) {
 	}
 	ordRound := ord != 0 && cd[nd-1] == 0 && lowTe != 1 && 1 < nd
 	vrt.Carve("C15-R-zero-triple", zeroTriple)
-	vrt.Carve("C15-R-round-tens-space", roundTens && !zeroTriple)
-	vrt.Carve("C15-R-ordinal-round", ordRound && !zeroTriple && !roundTens)
+	vrt.Carve("C15-R-round-numbers", (roundTens || ordRound) && !zeroTriple)
 	got := zzC15Process(slip.NewScope(), ctrl, slip.List{slip.Fixnum(x), slip.Fixnum(7)})
 	want := zzC15RefEnglish(cd, ord != 0)
 	vrt.Reach("compared")
